@@ -48,6 +48,8 @@ class SBytes:
 
 
 def is_bytes(x):
+    if type(x).__name__ == 'SStr':
+        return False
     return isinstance(x, (bytes, bytearray, SBytes))
 
 
